@@ -92,9 +92,13 @@ CLAIMS = {
     category="proof",
     text=("Theorems over the flow map: a switch parks the current flow untouched and touches no other parked flow; "
           "switching away and back is the identity on the whole core; the continue loop (steps, snapshots, rewinds) "
-          "never changes a parked flow. NOT proved: interleaving_eq_solo (partial) — decided by the oracle that "
-          "compares every interleaving of two flows (3+3 operations, with save/load, switch-away-and-back, "
-          "switch-to-default variants) with the solo runs, and by the tie incl. the normalised multi-flow save."),
+          "never changes a parked flow; for ANY list of host operations in another flow, switching there, running "
+          "them and switching back leaves a flow's record exactly as it was (other_flow_untouched, 1800 lines over a "
+          "Hoare logic for the step monad); the interleaving corollary holds under the explicit proviso that the other "
+          "flow's steps leave the shared part (globals, counts, seed) alone (partial only in that proviso) — which "
+          "the oracle checks: every interleaving of two flows (3+3 operations, with save/load after every "
+          "operation, switch-away-and-back, switch-to-default variants) vs the solo runs, and the tie incl. the "
+          "normalised multi-flow save."),
     design_ref="DESIGN.md section 5 C10",
     note="As C09. Flow scripts are disjoint in variables and knots (generator guarantee).",
     technique="Lean 4 theorems over the flow map (partial) + differential correspondence + exhaustive interleaving oracle"),
@@ -206,6 +210,21 @@ CLAIMS = {
     design_ref="DESIGN.md section 5 C14",
     note="Documents keep the key order inkVersion, root, listDefs, which the streaming loader requires.",
     technique="Lean 4 equivalence theorem for the two string readers (partial) + content-audit tie on both feature builds"),
+ "C20": dict(
+    category="proof",
+    text=("Model: Ink/Cli.lean, the tool's output as a function of the library's results (the interpreter model) and "
+          "the input lines, both modes. Proved: the tool's string escaping is inverted by the JSON parser for EVERY "
+          "string; every kind of line of the JSON mode (text, tags, choices with tag_count, issues, cmdOutput, "
+          "needInput, end, close) parses, through the real parser, to the intended object for all arguments; every "
+          "standard-output piece of a whole JSON-mode session, for every story state, input sequence and fuel, is "
+          "such a line of a documented kind. Tie: stdout, stderr and exit status of the real tool equal the model's "
+          "pieces for every generated session (hostile text, scripted inputs incl. hostile diverts, help, blanks, "
+          "early end of input, both modes, keep-open or not). Oracle: JSON-mode stdout decodes as documented objects; "
+          "lines / tags / choices equal the library's for the same choices; compiled output byte-identical to the "
+          "library's; a compile error exits non-zero with the library's message."),
+    design_ref="DESIGN.md section 5 C20",
+    note="Input lines contain ASCII white space only; stats mode (-s) is not modelled.",
+    technique="Lean 4 theorems over a model of the tool's output + exact differential tie of stdout / stderr / exit status"),
 }
 
 REASONS_PENDING = "check not built yet in this revision of /verif (see DESIGN.md section 9.1 for the order of work)"
